@@ -331,6 +331,7 @@ Section S.
     destruct (push_to_block2 E p o c) as [[o1|o1] c1]; cbn [fst snd robj] in *; [|exact (conj K N)].
     destruct (a_close_obj p); [|exact (conj K N)].
     destruct (r_state o1); try exact (conj K N).
+    destruct (r_writer o1) as [wr|] eqn:Ewr1; [|exact (conj K N)].
     destruct (error_keeps o1 true c1) as [K2 N2]. destruct (error o1 true c1) as [o2 c2]. cbn [fst snd robj] in *.
     split; [eapply keeps_trans; eassumption|eapply np_trans; eassumption].
   Qed.
